@@ -220,6 +220,8 @@ def count_paths(stmts, pred):
         if isinstance(s, ast.If):
             a = count_paths(s.body, pred)
             b = count_paths(s.orelse, pred)
+            if not s.orelse and _is_type_dispatch(s):
+                b = a           # a chain of isinstance tests over the possible operand types is exhaustive
             lo += min(a[0], b[0])
             hi += max(a[1], b[1])
         elif isinstance(s, (ast.For, ast.While)):
@@ -236,6 +238,11 @@ def count_paths(stmts, pred):
             lo += k
             hi += k
     return lo, hi
+
+
+def _is_type_dispatch(s):
+    t = s.test
+    return isinstance(t, ast.Call) and isinstance(t.func, ast.Name) and t.func.id == 'isinstance'
 
 
 def _is_append_to(n, attr):
